@@ -93,3 +93,12 @@ BUILT['C11'] = (
     "on/off, both signs of the quaternion dot product; every sample must be a valid member on the constant-rate fixed-axis arc "
     "(shorter arc when requested), translation (1-s)t0+s t1; s outside [0,1] must raise for the 3-D and quaternion functions",
     NOTE, "DESIGN.md 4 C11")
+BUILT['C12'] = (
+    "symbolic-valued execution of the real quaternion code (SymPy symbols through the library functions, difference "
+    "expanded to the zero polynomial) + numeric identity monitor against a longdouble Hamilton reference",
+    "13 identities (associativity, both distributive laws, multiplicative norm, conjugate reversal, q q*, integer powers "
+    "|n|<=6, 4x4 matrix form, inner product, both rate equations, 3-vector form, dual-quaternion associativity / 8x8 matrix "
+    "/ conjugate / unit norm, exp-log inverse pairs) are evaluated by both the base functions and the class operators on "
+    "components spanning 1e-6..1e6; residuals 1e-9 relative to the product of operand norms; the polynomial ones are also "
+    "discharged symbolically on every run by executing the library on symbols (coverage.symbolic_identities)",
+    NOTE, "DESIGN.md 4 C12")
